@@ -34,6 +34,7 @@ type slDriver struct {
 	init    []slInit
 	threads [][]slOp
 	mm      bool
+	fine    bool // plain stores to shared memory are scheduling points too
 }
 
 func (d slDriver) name() string {
@@ -52,6 +53,9 @@ func (d slDriver) name() string {
 	mode := "go"
 	if d.mm {
 		mode = "mm"
+	}
+	if d.fine {
+		mode += "+fine"
 	}
 	return fmt.Sprintf("%s/init=%s/%s", mode, strings.Join(in, ","), strings.Join(ts, "|"))
 }
@@ -134,11 +138,30 @@ func slDrivers(tier string) []slDriver {
 		{init: nil, threads: [][]slOp{{{'I', 2, 1}}, {{'I', 2, 1}}, {{'D', 2, 0}}}},
 		{init: k13, threads: [][]slOp{{{'I', 2, 1}}, {{'D', 1, 0}}, {{'D', 3, 0}}}},
 		{init: k123, threads: [][]slOp{{{'D', 1, 0}}, {{'D', 2, 0}}, {{'D', 3, 0}}}},
+		// adjacent nodes marked by two deleters before either unlinks, then a search for the second one
+		{init: k123, threads: [][]slOp{{{'D', 2, 0}}, {{'D', 3, 0}, {'L', 3, 0}}}},
+		{init: k123, threads: [][]slOp{{{'D', 2, 0}}, {{'D', 3, 0}, {'I', 3, 0}}}},
+		{init: k123, threads: [][]slOp{{{'D', 1, 0}, {'L', 1, 0}}, {{'D', 2, 0}, {'L', 2, 0}}}},
+		{init: k123, threads: [][]slOp{{{'N', 2, 0}}, {{'N', 3, 0}}, {{'L', 3, 0}}}},
+		// an insert whose upper-level link has to be redone (a tower lands in front and one behind) while it is deleted
+		{init: nil, threads: [][]slOp{{{'I', 2, 1}}, {{'I', 1, 1}, {'I', 3, 1}}, {{'D', 2, 0}}}},
+		{init: k13, threads: [][]slOp{{{'I', 2, 1}}, {{'D', 2, 0}}, {{'D', 3, 0}, {'I', 3, 1}}}},
 	}
 	for _, d := range cur {
 		out = append(out, d)
 		d.mm = true
 		out = append(out, d)
+		d.mm = false
+		d.fine = true
+		out = append(out, d)
+	}
+	// fine mode on the single-op pairs that race an insert with a delete or another insert of the same key
+	for _, init := range [][]slInit{nil, k2, k13} {
+		for _, l := range []int{1, 2} {
+			out = append(out, slDriver{init: init, threads: [][]slOp{{{'I', 2, l}}, {{'D', 2, 0}}}, fine: true})
+			out = append(out, slDriver{init: init, threads: [][]slOp{{{'I', 2, l}}, {{'I', 2, 1}}}, fine: true})
+			out = append(out, slDriver{init: init, threads: [][]slOp{{{'I', 2, l}}, {{'I', 1, 1}}}, fine: true})
+		}
 	}
 	if tier == "thorough" {
 		// all pairs (one op | two ops) on the two smallest non-empty inits, levels {0,1}
@@ -283,9 +306,11 @@ func runSlDriver(jc *JobCtx, prop string, d slDriver, bound int) {
 				}
 			}))
 		}
+		vrt.FineMode = d.fine
 		vrt.NoBranch(false)
 		vrt.Join(ths...)
 		vrt.NoBranch(true)
+		vrt.FineMode = false
 		// quiescent scan as one more operation
 		call := vrt.Fence()
 		var scan []int
@@ -355,6 +380,9 @@ func init() {
 		jobs := slJobs("C14")(tier)
 		// nitro-level quiescent points: the sequential histories of C02 with the walker + DumpStats reconciliation
 		jobs = append(jobs, seqJobs("C14", tier, seqCfgs(tier, []bool{false, true}, []string{"default"}, []string{"drain"}, 5, 6))...)
+		// structures produced by the bulk builder, with nodes of every height up to the maximum level
+		jobs = append(jobs, Job{Name: "C14/builder/go/tall", Run: func(jc *JobCtx) { runBuilderTall(jc, false) }})
+		jobs = append(jobs, Job{Name: "C14/builder/mm/tall", Run: func(jc *JobCtx) { runBuilderTall(jc, true) }})
 		return jobs
 	},
 		Rule:  "same drivers and schedules as C13; at the quiescent end of every execution the structure walker (per-level order, acyclicity, sub-sequence, height completeness) and the statistics reconciliation run; plus every nitro-level sequential history up to the depth (alphabet of C02, workers drained after every call) with the walker and the reconciliation of DumpStats (writer-local statistics merged) and of the allocator live set at every quiescent point; builder outputs are walked by the C18 check, restored instances by C05",
